@@ -502,6 +502,34 @@ def vc_filter(H):
                        meta={'got': repr(r), 'expected': repr((exp_k, exp_v))})
             return r
         H.run_paths(fuc, f'n={n}', body)
+    # a plain numeric zero among the values (products of mixed symbolic / numeric operands produce them): it is dropped like any other
+    # vanishing coefficient, and the surviving values stay paired with their own keys
+    for zero in (0, 0.0):
+        for at in (0, 1):
+            def body(ctx, zero=zero, at=at):
+                W = _world(ctx, 'none', True)
+                n = 3
+                keep = [SBool(z3.Bool(f'truthy{i}')) for i in range(n)]
+                simped = [sym(f'simp(v{i})', truth=keep[i]) for i in range(n)]
+                vs = [sym(f'v{i}') for i in range(n)]
+                vs[at] = zero
+
+                def simp(interp, me, a, k):
+                    if isinstance(a[0], (int, float)):
+                        return a[0]                      # simplifying a number returns the number
+                    return simped[[getattr(x, 'key', lambda: None)() for x in vs].index(a[0].key())]
+                W['simp'].callable_result = simp
+                ks = [sym(f'k{i}') for i in range(n)]
+                interp = Interp(ctx, source_name=REL)
+                r = H.closure(interp, fuc, _env())(W['me'], tuple(ks), list(vs))
+                kept = [i for i in range(n) if i != at and ctx.decide(keep[i].t)]
+                exp_k = tuple(ks[i] for i in kept)
+                exp_v = [simped[i] for i in kept]
+                ok = isinstance(r, tuple) and len(r) == 2 and same(tuple(r[0]), exp_k) and same(list(r[1]), exp_v)
+                ctx.oblige('post: a plain numeric zero is dropped and every surviving value keeps its own key', ok,
+                           meta={'got': repr(r), 'expected': repr((exp_k, exp_v))})
+                return r
+            H.run_paths(fuc, f'numeric zero {zero!r} at {at}', body)
 
 
 def vc_binary_chain(H, ops=None):
@@ -509,6 +537,7 @@ def vc_binary_chain(H, ops=None):
     vc_symbolic_operands(H)
     vc_call_dispatch(H)
     vc_call_binary(H)
+    vc_filter(H)            # the last step of every call with a symbolic operand
 
 
 def vc_unary_chain(H):
